@@ -87,7 +87,7 @@ Theorem rename_ok w ti t old new :
                  names := map (fun '(n, i) => if String.eqb n old then (new, i) else (n, i)) (names t);
                  slots := slots t; tsorted := tsorted t; dflt := dflt t |}, OkUnit).
 Proof.
-  intros Hg Hne Ho Hn. cbn [step]. rewrite Hg, Ho, Hn.
+  intros Hg Hne Ho Hn. cbn [step]. rewrite Hg, Ho, Hn. cbn [negb].
   destruct (String.eqb old new) eqn:E; [apply String.eqb_eq in E; contradiction|]. reflexivity.
 Qed.
 
